@@ -170,6 +170,7 @@ def _rows(args):
                 except Exception as e:
                     out.append({"row": row, "ver": ver, "skip": "response not encodable: %r" % (e,)})
                     continue
+            full = data
             data, plan = deliver(data, row["chunk"])
             sock = C.PipeSocket(None, responder=lambda req, d=data: d, plan=plan)
             cl = C.make_client(sock, ver)
@@ -191,8 +192,12 @@ def _rows(args):
             except Exception as e:
                 obs = {"kind": "raised", "dataok": False, "status": "", "reason": "", "message": "", "exc": "%s: %s" % (type(e).__name__, str(e)[:100])}
             want_status = {"failed": "OPERATION_FAILED", "failed_noop": "OPERATION_FAILED", "undone": "OPERATION_UNDONE"}.get(row["resp"], "")
+            announced = int.from_bytes(full[4:8], "big") if len(full) >= 8 else 0
             out.append({"row": row, "ver": ver, "obs": obs, "want": {"status": want_status, "reason": row["reason"], "message": message},
-                        "request_sent": len(sock.requests)})
+                        "request_sent": len(sock.requests),
+                        "trace": {"id": "%s/%s/%s/%s/%d%d" % (row["op"], row["resp"], row["chunk"], row["reason"], ver[0], ver[1]),
+                                  "plan": {"len": min(announced, 2 ** 30), "extra": 0, "cut": len(data)}, "ev": list(sock.log),
+                                  "kind": obs["kind"]}})
     return out
 
 
@@ -290,6 +295,42 @@ def requests_decodable(run):
     run.traces += n
 
 
+def client_traces(run, traces):
+    """Leg A for the client's receive loop (ClientLoop.tla, every chunking, negative control) and validation of the socket
+    events of every executed row against it (TraceClient.tla)."""
+    import json
+    import os
+    for over, want in (("FALSE", None), ("TRUE", "NoOverRead")):
+        cfg = tlc.write_cfg("MC_ClientLoop_%s.cfg" % over, "SPECIFICATION CSpec\nCONSTANTS\n  Plans <- MCPlans\n  OVERREAD = %s\n"
+                            "INVARIANT DeliversExactlyOneFrame\nINVARIANT NoOverRead\nINVARIANT RaisesOnShortStream\nCHECK_DEADLOCK FALSE\n" % over)
+        res = tlc.run("MC_ClientLoop", cfg, allow_violation=True)
+        if want is None:
+            run.add_tlc(res, "MC_ClientLoop: the client's receive loop under every chunking")
+            if res.violated:
+                raise common.MachineryFailure("ClientLoop.tla violates %s" % res.violated)
+        elif want not in res.violated:
+            raise common.MachineryFailure("negative control of ClientLoop.tla (fixed-size recv) does not violate %s" % want)
+    seen, uniq = set(), []
+    for t in traces:
+        if t["id"] in seen:
+            continue
+        seen.add(t["id"])
+        uniq.append(t)
+    path = os.path.join(common.scratch(), "c19client.json")
+    json.dump(uniq, open(path, "w"))
+    cfg = tlc.write_cfg("TraceClient.cfg", "SPECIFICATION TSpec\nCONSTANTS\n  Plans = {}\n  OVERREAD = FALSE\nCHECK_DEADLOCK FALSE\n")
+    res = tlc.run("TraceClient", cfg, env={"TRACE_FILE": path})
+    run.add_tlc(res, "TraceClient: %d client exchanges, %d socket events" % (len(uniq), sum(len(t["ev"]) for t in uniq)))
+    by = {t["id"]: t for t in uniq}
+    for v in res.tag("V"):
+        t = by[v["id"]]
+        for c in v["clauses"]:
+            run.violation(c, {"op": v["id"].split("/")[0], "chunk": v["id"].split("/")[2]}, {"exchange": t})
+    for d in res.tag("D"):
+        run.note_drift({"module": "ClientLoop", "e": d["e"], "phase": d["phase"], "op": d["id"].split("/")[0]})
+    run.extra["client_exchanges_validated"] = {"exchanges": len(uniq), "in_step_to_the_end": len(res.tag("OK"))}
+
+
 def check(run, tier):
     quick = tier == "quick"
     run.rule = ("Client.tla is the decision table operation (21 ProxyKmipClient methods) x response class {success with payload, "
@@ -310,6 +351,7 @@ def check(run, tier):
     n = common.NCPU
     with multiprocessing.Pool(n) as pool:
         outs = pool.map(_rows, [(rows[i::n], common.SEED) for i in range(n)])
+    client_traces(run, [o["trace"] for out in outs for o in out if "trace" in o])
     nrun = 0
     for out in outs:
         for o in out:
